@@ -303,6 +303,13 @@ class VGen:
                           "kind": "elem", "at": "%%IX%d.%d" % (r.randint(0, 9), r.randint(0, 7))})
             scalars.append(vars_[-1]["name"])
         d = {"k": kind, "name": name, "vars": vars_}
+        if kind == "program" and self.feature("var-access", 0.25):
+            # access paths to the program's own variables
+            acc = []
+            for v in [x for x in vars_ if x["kind"] == "elem" and x["class"] in ("VAR", "VAR_OUTPUT", "VAR_INPUT")
+                      and " " not in x["type"] and not x.get("at")][:r.randint(1, 3)]:
+                acc.append([self.fresh("acc"), v["name"], v["type"], self.pick(["READ_WRITE", "READ_ONLY", ""])])
+            d["access"] = acc
         readable = scalars + scalars_ro
         structs = [v for v in vars_ if v["kind"] == "struct"]
         arrays = [v for v in vars_ if v["kind"] == "array"]
@@ -548,7 +555,10 @@ def render_decl(d):
         return "\n".join(lines)
     if k in ("fb", "program"):
         kw = "FUNCTION_BLOCK" if k == "fb" else "PROGRAM"
-        lines = ["%s %s" % (kw, d["name"])] + render_var_blocks(d["vars"]) + render_stmts(d["body"]) + ["END_" + kw]
+        acc = []
+        if d.get("access"):
+            acc = ["VAR_ACCESS"] + ["  %s : %s : %s%s;" % (a, v, t, (" " + dr) if dr else "") for a, v, t, dr in d["access"]] + ["END_VAR"]
+        lines = ["%s %s" % (kw, d["name"])] + render_var_blocks(d["vars"]) + acc + render_stmts(d["body"]) + ["END_" + kw]
         return "\n".join(lines)
     if k == "config":
         lines = ["CONFIGURATION %s" % d["name"]]
@@ -683,6 +693,10 @@ def plant_all(decls):
             m[i]["lo"], m[i]["hi"] = d["hi"], d["lo"]
             m[i]["default"] = None
             yield "P0004", "type-subrange", m, [str(d["hi"]), str(d["lo"]), str(abs(d["hi"])), str(abs(d["lo"]))]
+        if k == "array":
+            m = copy.deepcopy(decls)
+            m[i]["lo"], m[i]["hi"] = d["hi"], d["lo"]
+            yield "P0004", "type-array-bounds", m, [str(d["hi"]), str(d["lo"])]
         if k == "enum":
             m = copy.deepcopy(decls)
             m[i]["values"].append(m[i]["values"][0])
@@ -727,6 +741,19 @@ def plant_all(decls):
                     m = copy.deepcopy(decls)
                     m[i]["vars"][j]["init"] = "NoSuchValue"
                     yield "P0014", "%s:%s:%s" % (k, pos, blk), m, ["NoSuchValue"]
+                    others = [x for x in decls if x["k"] == "enum" and not set(x["values"]) & set(v.get("values", []))]
+                    if others:
+                        # a value of ANOTHER enumeration, spelled with that enumeration's name in front: declared, but
+                        # not a value of this variable's type
+                        m = copy.deepcopy(decls)
+                        m[i]["vars"][j]["init"] = "%s#%s" % (others[0]["name"], others[0]["values"][0])
+                        yield "P0014", "%s:%s:%s:value-of-other-enumeration" % (k, pos, blk), m, [others[0]["values"][0], others[0]["name"]]
+                if v["kind"] == "array" and v["type"].startswith("ARRAY["):
+                    m = copy.deepcopy(decls)
+                    m[i]["vars"][j]["type"] = _re.sub(r"ARRAY\[(\d+)\.\.(\d+)\]", lambda mm: "ARRAY[%s..%s]" % (mm.group(2), mm.group(1)),
+                                                     v["type"])
+                    m[i]["vars"][j]["init"] = None
+                    yield "P0004", "%s:%s:var-array-bounds" % (k, pos), m, _re.findall(r"\d+", v["type"]) + [v["name"]]
                 if v["kind"] == "elem" and v["class"] in ("VAR", "VAR_INPUT", "VAR_OUTPUT") and not v.get("at") \
                         and v["qual"] != "CONSTANT" and (j + 1 == len(d["vars"]) or
                                                          (d["vars"][j + 1]["class"], d["vars"][j + 1]["qual"]) !=
